@@ -173,12 +173,18 @@ def _order(ctx, rep):
             continue
         for q, f in m.funcs.items():
             set_names = {}
-            for a in ast.walk(f):
-                if isinstance(a, ast.Assign) and len(a.targets) == 1 and isinstance(a.targets[0], ast.Name):
-                    v = a.value
-                    if isinstance(v, (ast.Set, ast.SetComp)) or (
-                            isinstance(v, ast.Call) and isinstance(v.func, ast.Name) and v.func.id in ("set", "frozenset")):
-                        set_names[a.targets[0].id] = v
+            live = {}
+            assigns = sorted([a for a in ast.walk(f) if isinstance(a, ast.Assign) and len(a.targets) == 1
+                              and isinstance(a.targets[0], ast.Name)], key=lambda a: a.lineno)
+            for a in assigns:
+                v = a.value
+                nm = a.targets[0].id
+                if isinstance(v, (ast.Set, ast.SetComp)) or (
+                        isinstance(v, ast.Call) and isinstance(v.func, ast.Name) and v.func.id in ("set", "frozenset")):
+                    set_names[nm] = v
+                    # the binding is a set from this line up to the next rebinding of the name
+                    nxt = [b.lineno for b in assigns if b.targets[0].id == nm and b.lineno > a.lineno]
+                    live[nm] = (a.lineno, min(nxt) if nxt else 10 ** 9)
             for name, v in set_names.items():
                 n += 1
                 c = "{}::{}::set {}".format(m.rel, q, name)
@@ -191,6 +197,11 @@ def _order(ctx, rep):
                 bad = None
                 for u in ast.walk(f):
                     it = None
+                    ln = getattr(u, "lineno", None)
+                    if ln is None and isinstance(u, ast.comprehension):
+                        ln = getattr(u.iter, "lineno", None)
+                    if ln is not None and not (live[name][0] < ln <= live[name][1]):
+                        continue
                     if isinstance(u, ast.For):
                         it = u.iter
                     elif isinstance(u, ast.comprehension):
